@@ -4748,7 +4748,9 @@ class Symbol:
         """
         # value_is_valid() accepts only string or 0/2 (corresponding to n/y) values
         if not self.value_is_valid(
-            STR_TO_BOOL[self._sdkconfig_value] if self._sdkconfig_value in ("y", "n") else str(self._sdkconfig_value)
+            STR_TO_BOOL[self._sdkconfig_value]
+            if self.orig_type == BOOL and self._sdkconfig_value in ("y", "n")
+            else str(self._sdkconfig_value)
         ):
             log.note(
                 f"'{self._sdkconfig_value}' is not a valid value for the "
